@@ -801,10 +801,29 @@ def _gen_enum_pkg(rng, name, profile, max_hb, allow_gorm):
     rng.shuffle(allb)
     for T, blk in allb:
         rng.choice(spec.files).items.append(("const", blk))
+    # K_enum_implicit_type: now and then ONE type of a multi-type package gets constants whose type is only
+    # inferred from their expression (`AB = A | B`, plus constants carried down from it).  That type is outside the
+    # guard and is not generated/observed here (its witness is replayed separately); the OTHER types of the
+    # package stay inside the guard: the guard is per type.
+    spec.untargeted = set()
+    if len(spec.types) > 1 and rng.random() < 0.25:
+        U = rng.choice([T for T, _ in spec.types])
+        blk = rng.choice(per_type_blocks[U])
+        mine = [n for s_ in blk.specs if s_.vtype == ("ident", U) and s_.vals for n in s_.names if n != "_"]
+        if mine and blk.paren:
+            a = rng.choice(mine)
+            e = rng.choice([("ref", a), ("or", ("ref", a), ("ref", rng.choice(mine))), ("add", ("ref", a), ("lit", 0))])
+            blk.specs.append(VSpec([b.names.fresh(U)], None, [e]))
+            for _ in range(rng.choice([0, 0, 1])):
+                blk.specs.append(VSpec([b.names.fresh(U)], None, []))
+            spec.untargeted.add(U)
+            spec.features.add("implicit-other-type")
     # validate as a whole (names unique, values in range) and compute declared constants
     env = spec.const_env()
     decl = {T: spec.declared(T) for T, _ in spec.types}
     for T, _ in spec.types:
+        if T in spec.untargeted:
+            continue
         vals = [v for _, v in decl[T]]
         if len(set(vals)) != len(vals):
             if not b.aliases:
@@ -817,7 +836,7 @@ def _gen_enum_pkg(rng, name, profile, max_hb, allow_gorm):
             raise EvalError("implicit typing / foreign carry: outside the comparison stream")
     # run plan
     mode = rng.choice(["explicit", "explicit", "explicit", "joint", "star", "file"])
-    with_consts = [T for T, _ in spec.types if decl[T]]
+    with_consts = [T for T, _ in spec.types if decl[T] and T not in spec.untargeted]
     if not with_consts:
         raise EvalError("no constants")
 
@@ -864,8 +883,10 @@ def _gen_enum_pkg(rng, name, profile, max_hb, allow_gorm):
             ts = [it[1] for it in f.items if it[0] == "type"]
             if not ts:
                 continue
-            cs = [T for T in ts if decl[T]]
-            fl = flags_for(ts[0])
+            cs = [T for T in ts if decl[T] and T not in spec.untargeted]
+            if not cs:
+                continue
+            fl = flags_for(cs[0])
             if fl["bit"] and not all(T in bit_types for T in cs):
                 fl["bit"] = False
             for T in cs:
